@@ -6,6 +6,7 @@ import XeofsProofs.Props.C01
 import XeofsModel.Generated.Facts
 import XeofsProofs.Lemmas.CpccaModel
 import XeofsProofs.Lemmas.RotModel
+import XeofsProofs.Lemmas.CrotModel
 /-!
 # C04 — transform of the training data reproduces the model's scores
 -/
@@ -121,5 +122,23 @@ passes through `transform` and `inverse_transform` -/
 theorem src_multiindex_restore_after_drop :
     Gen.multiIndexRestoreCuts = ["if X_inverse_transformed.sizes[dim] != original_index.sizes[dim]: positions = X_inverse_transformed.coords[dim].values original_index = original_index.isel({dim: positions})"] := by
   decide +kernel
+
+/-- **rotated cross-set models on the executable model** (`XM.crotTransform` / `XM.crotFit`, tied by the `crot` correspondence):
+`CPCCARotator.transform` of the data the unrotated model was fitted on (`S₁ = X · Q₁` in whitened PC space) returns the stored
+rotated scores — same rotation, same order, same signs, same norms -/
+theorem model_crot_transform_training {n p q p' q' k : ℕ} (A1 : XM.Mat p p' 𝕜) (A2 : XM.Mat q q' 𝕜) (B1 : XM.Mat p' p 𝕜)
+    (B2 : XM.Mat q' q 𝕜) (Q1 : XM.Mat p' k 𝕜) (Q2 : XM.Mat q' k 𝕜) (s : Fin k → ℝ) (S1 S2 : XM.Mat n k 𝕜) (R RinvT : XM.Mat k k 𝕜)
+    (sgn : Fin k → ℝ) (perm : Fin k → Fin k) (X : XM.Mat n p' 𝕜) (h : S1 = X.mul Q1) :
+    (XM.crotTransform (XM.crotFit A1 A2 B1 B2 Q1 Q2 s S1 S2 R RinvT sgn perm).norm1
+        (XM.crotFit A1 A2 B1 B2 Q1 Q2 s S1 S2 R RinvT sgn perm).sgn Q1 s RinvT perm X false).toMatrix
+      = (XM.crotFit A1 A2 B1 B2 Q1 Q2 s S1 S2 R RinvT sgn perm).scores1.toMatrix :=
+  XP.CrotM.model_transform_training A1 A2 B1 B2 Q1 Q2 s S1 S2 R RinvT sgn perm X h
+
+/-- `normalized=True` differs from the default exactly by the per-mode norm -/
+theorem model_crot_transform_normalized {m p' k : ℕ} (norms sgnS : Fin k → ℝ) (Q : XM.Mat p' k 𝕜) (s : Fin k → ℝ)
+    (RinvT : XM.Mat k k 𝕜) (perm : Fin k → Fin k) (X : XM.Mat m p' 𝕜) (i : Fin m) (j : Fin k) :
+    (XM.crotTransform norms sgnS Q s RinvT perm X false).get i j
+      = (XM.crotTransform norms sgnS Q s RinvT perm X true).get i j * ((norms j : ℝ) : 𝕜) :=
+  XP.CrotM.model_transform_normalized norms sgnS Q s RinvT perm X i j
 
 end C04
